@@ -254,8 +254,15 @@ func (r *reader) value(t *Ty, v *J, where string) *Exp {
 			return nil
 		}
 		s := r.env.Lookup(t.Ref)
+		// the short name as written takes precedence over a prefixed reading (a short name may itself begin
+		// with the prefix), whatever the declaration order
 		for _, o := range s.Options {
-			if v.S == o.Name || v.S == s.Prefix+o.Name {
+			if v.S == o.Name {
+				return &Exp{Kind: "enum", Int: big.NewInt(int64(o.Number))}
+			}
+		}
+		for _, o := range s.Options {
+			if v.S == s.Prefix+o.Name {
 				return &Exp{Kind: "enum", Int: big.NewInt(int64(o.Number))}
 			}
 		}
